@@ -189,13 +189,13 @@ theorem lookup_erase (m : List (Tag × Digest)) (t x : Tag) :
         simp [h3, this]
       · simp only [h3, decide_false]; exact ih
 
-theorem addBegin_stored (r : Retry.State) (k : Key) (h : (Retry.stepO r (.addBegin k 0 [])).2 ≠ .closed) :
-    k ∈ Retry.keys (Retry.stepO r (.addBegin k 0 [])).1.rows := by
+theorem addBegin_stored (r : Retry.State) (k : Key) (dl : Nat) (h : (Retry.stepO r (.addBegin k dl [])).2 ≠ .closed) :
+    k ∈ Retry.keys (Retry.stepO r (.addBegin k dl [])).1.rows := by
   simp only [Retry.stepO] at h ⊢
   cases hm : r.mode <;> simp only [hm] at h ⊢
   · by_cases hh : Retry.hasKey r.rows k = true
     · simpa [hh] using (Retry.hasKey_iff _ _).mp hh
-    · simp [hh, Retry.keys, Retry.newRow]
+    · by_cases hd : dl = 0 <;> simp [hh, hd, Retry.keys, Retry.newRow]
   all_goals simp at h
 
 theorem isSome_of_stable {m m' : List (Tag × Digest)} (h : ∀ x v, lookup m x = some v → lookup m' x = some v)
@@ -203,104 +203,107 @@ theorem isSome_of_stable {m m' : List (Tag × Digest)} (h : ∀ x v, lookup m x 
   obtain ⟨v, hv⟩ := Option.isSome_iff_exists.mp hx
   rw [h x v hv]; rfl
 
+theorem putStore_inv (s : State) (t : Tag) (d : Digest) (delay : Nat) (ups : List Bool) (h : Inv s) :
+    Inv (putStore s t d delay ups).1 := by
+  simp only [putStore]
+  have hdisk : ∀ x v, lookup s.disk x = some v → lookup (writeDisk s.disk t d) x = some v :=
+    fun x v => writeDisk_stable s.disk t x d v
+  have hput : ∀ x v, lookup (writeDisk s.disk t d) x = some v → (x, v) ∈ s.putFor ++ [(t, d)] := by
+    intro x v hx
+    rcases writeDisk_source s.disk t x d v hx with h1 | ⟨rfl, rfl⟩
+    · exact List.mem_append_left _ (h.diskPut x v h1)
+    · simp
+  have hbput : ∀ x v, lookup s.backend x = some v → (x, v) ∈ s.putFor ++ [(t, d)] :=
+    fun x v hx => List.mem_append_left _ (h.backendPut x v hx)
+  -- a tag file without flag after the write: it is another tag's, unchanged
+  have hflag0 : ∀ x, (lookup (writeDisk s.disk t d) x).isSome → x ∉ ins s.persist t → (lookup s.backend x).isSome := by
+    intro x hx hnp
+    have hxt : x ≠ t := fun he => hnp ((mem_ins _ _ _).mpr (Or.inl he))
+    have hnp' : x ∉ s.persist := fun hp => hnp ((mem_ins _ _ _).mpr (Or.inr hp))
+    obtain ⟨v, hv⟩ := Option.isSome_iff_exists.mp hx
+    rcases writeDisk_source s.disk t x d v hv with h1 | ⟨h1, _⟩
+    · exact h.flag x (by rw [h1]; rfl) hnp'
+    · exact absurd h1 hxt
+  by_cases hw : s.writeThrough = true
+  · simp only [hw, if_true]
+    have e := syncExec_spec (writeDisk s.disk t d) t 3 ups s.backend
+    cases hr : syncExec (writeDisk s.disk t d) t 3 ups s.backend with
+    | mk ok b' =>
+      rw [hr] at e
+      have hbput' : ∀ x v, lookup b' x = some v → (x, v) ∈ s.putFor ++ [(t, d)] := by
+        intro x v hx
+        rcases e.source x v hx with h1 | ⟨rfl, h1⟩
+        · exact hbput x v h1
+        · exact hput x v h1
+      have okOld : ∀ x ∈ s.okPut, (lookup b' x).isSome := by
+        intro x hx
+        rcases h.okPut x hx with a | ⟨_, _, a, _⟩
+        · exact isSome_of_stable e.stable x a
+        · rw [hw] at a; cases a
+      cases ok with
+      | false =>
+        simp only
+        refine ⟨h.good, hput, hbput', ?_, fun x hx => Or.inl (okOld x hx)⟩
+        intro x hx hnp
+        exact isSome_of_stable e.stable x (hflag0 x hx hnp)
+      | true =>
+        simp only
+        refine ⟨h.good, hput, hbput', ?_, ?_⟩
+        · intro x hx hnp
+          by_cases hxt : x = t
+          · subst hxt; exact e.done rfl hx
+          · have : x ∉ ins s.persist t := fun hp => hnp ((mem_del _ _ _).mpr ⟨hxt, hp⟩)
+            exact isSome_of_stable e.stable x (hflag0 x hx this)
+        · intro x hx
+          rcases (mem_ins _ _ _).mp hx with rfl | hx
+          · exact Or.inl (e.done rfl (writeDisk_self _ _ _))
+          · exact Or.inl (okOld x hx)
+  · have hw' : s.writeThrough = false := by simpa using hw
+    simp only [hw', Bool.false_eq_true, if_false]
+    have okOld : ∀ (r' : Retry.State), (∀ x, stored s x → x ∈ Retry.keys r'.rows) →
+        ∀ x ∈ s.okPut, (lookup s.backend x).isSome ∨
+          ((lookup (writeDisk s.disk t d) x).isSome ∧ x ∈ ins s.persist t ∧ false = false ∧ x ∈ Retry.keys r'.rows) := by
+      intro r' hr' x hx
+      rcases h.okPut x hx with a | ⟨a, b, _, c⟩
+      · exact Or.inl a
+      · exact Or.inr ⟨isSome_of_stable hdisk x a, (mem_ins _ _ _).mpr (Or.inr b), rfl, hr' x c⟩
+    cases ha : Retry.stepO s.r (.addBegin t delay []) with
+    | mk r1 o1 =>
+      have hr1 : r1 = (Retry.stepO s.r (.addBegin t delay [])).1 := by rw [ha]
+      have ho1 : o1 = (Retry.stepO s.r (.addBegin t delay [])).2 := by rw [ha]
+      have hclosed : Inv { s with disk := writeDisk s.disk t d, persist := ins s.persist t, putFor := s.putFor ++ [(t, d)] } := by
+        refine ⟨h.good, hput, hbput, hflag0, ?_⟩
+        intro x hx
+        have := okOld s.r (fun _ h => h) x hx
+        simpa [hw', stored] using this
+      have hk1 : ∀ x, stored s x → x ∈ Retry.keys (Retry.step r1 (.addEnq t)).rows := by
+        intro x hx
+        apply kept _ _ _ _ (by simp) (by intro inv h; cases h)
+        rw [hr1]
+        exact kept s.r (.addBegin t delay []) x hx (by simp) (by intro inv h; cases h)
+      have hacc : o1 ≠ .closed → Inv { s with disk := writeDisk s.disk t d, persist := ins s.persist t, putFor := s.putFor ++ [(t, d)], r := Retry.step r1 (.addEnq t), okPut := ins s.okPut t } := by
+        intro hne
+        refine ⟨Retry.step_good _ _ (hr1 ▸ Retry.step_good _ _ h.good), hput, hbput, hflag0, ?_⟩
+        intro x hx
+        rcases (mem_ins _ _ _).mp hx with rfl | hx
+        · refine Or.inr ⟨writeDisk_self _ _ _, (mem_ins _ _ _).mpr (Or.inl rfl), hw', ?_⟩
+          show x ∈ Retry.keys (Retry.step r1 (.addEnq x)).rows
+          apply kept _ _ _ _ (by simp) (by intro inv h; cases h)
+          rw [hr1]
+          exact addBegin_stored s.r x delay (ho1 ▸ hne)
+        · have := okOld (Retry.step r1 (.addEnq t)) hk1 x hx
+          simpa [hw', stored] using this
+      cases o1 <;> simp only
+      case closed => simpa [hw'] using hclosed
+      all_goals simpa [hw'] using hacc (by simp)
+
 theorem step_inv (s : State) (o : Op) (h : Inv s) : Inv (step s o) := by
   unfold step
   cases o with
   | put t d deps ups =>
     simp only [stepO]
-    cases hc : checkDeps deps <;> simp only
-    case ok =>
-      have hdisk : ∀ x v, lookup s.disk x = some v → lookup (writeDisk s.disk t d) x = some v :=
-        fun x v => writeDisk_stable s.disk t x d v
-      have hput : ∀ x v, lookup (writeDisk s.disk t d) x = some v → (x, v) ∈ s.putFor ++ [(t, d)] := by
-        intro x v hx
-        rcases writeDisk_source s.disk t x d v hx with h1 | ⟨rfl, rfl⟩
-        · exact List.mem_append_left _ (h.diskPut x v h1)
-        · simp
-      have hbput : ∀ x v, lookup s.backend x = some v → (x, v) ∈ s.putFor ++ [(t, d)] :=
-        fun x v hx => List.mem_append_left _ (h.backendPut x v hx)
-      -- a tag file without flag after the write: it is another tag's, unchanged
-      have hflag0 : ∀ x, (lookup (writeDisk s.disk t d) x).isSome → x ∉ ins s.persist t → (lookup s.backend x).isSome := by
-        intro x hx hnp
-        have hxt : x ≠ t := fun he => hnp ((mem_ins _ _ _).mpr (Or.inl he))
-        have hnp' : x ∉ s.persist := fun hp => hnp ((mem_ins _ _ _).mpr (Or.inr hp))
-        obtain ⟨v, hv⟩ := Option.isSome_iff_exists.mp hx
-        rcases writeDisk_source s.disk t x d v hv with h1 | ⟨h1, _⟩
-        · exact h.flag x (by rw [h1]; rfl) hnp'
-        · exact absurd h1 hxt
-      by_cases hw : s.writeThrough = true
-      · simp only [hw, if_true]
-        have e := syncExec_spec (writeDisk s.disk t d) t 3 ups s.backend
-        cases hr : syncExec (writeDisk s.disk t d) t 3 ups s.backend with
-        | mk ok b' =>
-          rw [hr] at e
-          have hbput' : ∀ x v, lookup b' x = some v → (x, v) ∈ s.putFor ++ [(t, d)] := by
-            intro x v hx
-            rcases e.source x v hx with h1 | ⟨rfl, h1⟩
-            · exact hbput x v h1
-            · exact hput x v h1
-          have okOld : ∀ x ∈ s.okPut, (lookup b' x).isSome := by
-            intro x hx
-            rcases h.okPut x hx with a | ⟨_, _, a, _⟩
-            · exact isSome_of_stable e.stable x a
-            · rw [hw] at a; cases a
-          cases ok with
-          | false =>
-            simp only
-            refine ⟨h.good, hput, hbput', ?_, fun x hx => Or.inl (okOld x hx)⟩
-            intro x hx hnp
-            exact isSome_of_stable e.stable x (hflag0 x hx hnp)
-          | true =>
-            simp only
-            refine ⟨h.good, hput, hbput', ?_, ?_⟩
-            · intro x hx hnp
-              by_cases hxt : x = t
-              · subst hxt; exact e.done rfl hx
-              · have : x ∉ ins s.persist t := fun hp => hnp ((mem_del _ _ _).mpr ⟨hxt, hp⟩)
-                exact isSome_of_stable e.stable x (hflag0 x hx this)
-            · intro x hx
-              rcases (mem_ins _ _ _).mp hx with rfl | hx
-              · exact Or.inl (e.done rfl (writeDisk_self _ _ _))
-              · exact Or.inl (okOld x hx)
-      · have hw' : s.writeThrough = false := by simpa using hw
-        simp only [hw', Bool.false_eq_true, if_false]
-        have okOld : ∀ (r' : Retry.State), (∀ x, stored s x → x ∈ Retry.keys r'.rows) →
-            ∀ x ∈ s.okPut, (lookup s.backend x).isSome ∨
-              ((lookup (writeDisk s.disk t d) x).isSome ∧ x ∈ ins s.persist t ∧ false = false ∧ x ∈ Retry.keys r'.rows) := by
-          intro r' hr' x hx
-          rcases h.okPut x hx with a | ⟨a, b, _, c⟩
-          · exact Or.inl a
-          · exact Or.inr ⟨isSome_of_stable hdisk x a, (mem_ins _ _ _).mpr (Or.inr b), rfl, hr' x c⟩
-        cases ha : Retry.stepO s.r (.addBegin t 0 []) with
-        | mk r1 o1 =>
-          have hr1 : r1 = (Retry.stepO s.r (.addBegin t 0 [])).1 := by rw [ha]
-          have ho1 : o1 = (Retry.stepO s.r (.addBegin t 0 [])).2 := by rw [ha]
-          have hclosed : Inv { s with disk := writeDisk s.disk t d, persist := ins s.persist t, putFor := s.putFor ++ [(t, d)] } := by
-            refine ⟨h.good, hput, hbput, hflag0, ?_⟩
-            intro x hx
-            have := okOld s.r (fun _ h => h) x hx
-            simpa [hw', stored] using this
-          have hk1 : ∀ x, stored s x → x ∈ Retry.keys (Retry.step r1 (.addEnq t)).rows := by
-            intro x hx
-            apply kept _ _ _ _ (by simp) (by intro inv h; cases h)
-            rw [hr1]
-            exact kept s.r (.addBegin t 0 []) x hx (by simp) (by intro inv h; cases h)
-          have hacc : o1 ≠ .closed → Inv { s with disk := writeDisk s.disk t d, persist := ins s.persist t, putFor := s.putFor ++ [(t, d)], r := Retry.step r1 (.addEnq t), okPut := ins s.okPut t } := by
-            intro hne
-            refine ⟨Retry.step_good _ _ (hr1 ▸ Retry.step_good _ _ h.good), hput, hbput, hflag0, ?_⟩
-            intro x hx
-            rcases (mem_ins _ _ _).mp hx with rfl | hx
-            · refine Or.inr ⟨writeDisk_self _ _ _, (mem_ins _ _ _).mpr (Or.inl rfl), hw', ?_⟩
-              show x ∈ Retry.keys (Retry.step r1 (.addEnq x)).rows
-              apply kept _ _ _ _ (by simp) (by intro inv h; cases h)
-              rw [hr1]
-              exact addBegin_stored s.r x (ho1 ▸ hne)
-            · have := okOld (Retry.step r1 (.addEnq t)) hk1 x hx
-              simpa [hw', stored] using this
-          cases o1 <;> simp only
-          case closed => simpa [hw'] using hclosed
-          all_goals simpa [hw'] using hacc (by simp)
-    all_goals exact h
+    cases hc : checkDeps deps <;> simp only <;> first | exact h | exact putStore_inv s t d 0 ups h
+  | dupPut t d delay ups => simp only [stepO]; exact putStore_inv s t d delay ups h
   | get t up =>
     simp only [stepO]
     split
@@ -424,6 +427,40 @@ theorem put_refused_stores_nothing (s : State) (t : Tag) (d : Digest) (deps : Li
     (h : checkDeps deps ≠ .ok) : step s (.put t d deps ups) = s := by
   cases hc : checkDeps deps <;> simp only [step, stepO, hc] <;> exact absurd hc h
 
+/-- **C32 (1b)** `PUT ?replicate=true`: replication tasks are created only for an acknowledged PUT, and each
+carries exactly the dependency list whose every element the origin cluster just confirmed — the list C33's
+executor replicates before it puts the tag remotely.  (Definitional on the model side; the tie — recording
+replication manager, monitor `replication-task-deps-differ-from-checked` — carries it.) -/
+theorem replication_task_carries_checked_dependencies (s : State) (t : Tag) (d : Digest) (answers : List DepRes)
+    (ups : List Bool) (deps : List Digest) (dests : List Nat) (task : Tag × Digest × List Digest × Nat)
+    (h : task ∈ replicationTasks (out s (.put t d answers ups)) t d deps dests) :
+    task.1 = t ∧ task.2.1 = d ∧ task.2.2.1 = deps ∧ task.2.2.2 ∈ dests ∧ ∀ r ∈ answers, r = .ok := by
+  unfold replicationTasks at h
+  by_cases ho : out s (.put t d answers ups) = .ok
+  · simp only [ho, if_true] at h
+    obtain ⟨r, hr, rfl⟩ := List.mem_map.mp h
+    exact ⟨rfl, rfl, rfl, hr, put_only_with_all_dependencies s t d answers ups ho⟩
+  · simp [ho] at h
+
+/-- **C32 (1c)** a duplicate PUT from a neighbour (no dependency check, write-back possibly delayed) that is
+acknowledged counts as an acknowledged PUT: everything below that is stated for `okPut` tags — resolvable,
+written back or pending with its task stored, eventually written back — holds for it, delayed task included. -/
+theorem duplicate_put_is_covered (s : State) (t : Tag) (d : Digest) (delay : Nat) (ups : List Bool)
+    (h : out s (.dupPut t d delay ups) = .ok) :
+    t ∈ (step s (.dupPut t d delay ups)).okPut ∧ (t, d) ∈ (step s (.dupPut t d delay ups)).putFor := by
+  simp only [out, step, stepO, putStore] at h ⊢
+  split at h
+  · split at h
+    · rename_i h1 _ _ h2
+      simp only [h1, if_true]
+      exact ⟨(mem_ins _ _ _).mpr (Or.inl rfl), by simp⟩
+    · cases h
+  · split at h
+    · cases h
+    · rename_i hw _ _ _ _ _
+      simp only [hw, if_false]
+      exact ⟨(mem_ins _ _ _).mpr (Or.inl rfl), by simp⟩
+
 /-- **C32 (2b)** After every history — evictions included — what a GET resolves a tag to is a digest
 that was put for that tag, whether it comes from the node's disk or (the tag file evicted or never
 there) from the backend.  Both branches are reachable (examples at the end). -/
@@ -537,15 +574,20 @@ theorem not_tags_stable_and_backend_agrees : ¬ tags_stable_and_backend_agrees_t
   revert this
   decide
 
+theorem putStore_putFor (s : State) (t : Tag) (d : Digest) (delay : Nat) (ups : List Bool) (x : Tag × Digest)
+    (h : x ∈ s.putFor) : x ∈ (putStore s t d delay ups).1.putFor := by
+  simp only [putStore]
+  split
+  · split <;> exact List.mem_append_left _ h
+  · split <;> exact List.mem_append_left _ h
+
 theorem putFor_mono (s : State) (o : Op) (x : Tag × Digest) (h : x ∈ s.putFor) : x ∈ (step s o).putFor := by
   unfold step
   cases o with
   | put t d deps ups =>
     simp only [stepO]
-    cases checkDeps deps <;> simp only <;> try exact h
-    split
-    · split <;> exact List.mem_append_left _ h
-    · split <;> exact List.mem_append_left _ h
+    cases checkDeps deps <;> simp only <;> first | exact h | exact putStore_putFor s t d 0 ups x h
+  | dupPut t d delay ups => simp only [stepO]; exact putStore_putFor s t d delay ups x h
   | get t up => simp only [stepO]; (repeat' split) <;> exact h
   | retry o => simp only [stepO]; split <;> exact h
   | exec t up => simp only [stepO]; (repeat' split) <;> exact h
@@ -585,6 +627,13 @@ def NoEvict : Op → Prop
 
 instance (o : Op) : Decidable (NoEvict o) := by cases o <;> simp only [NoEvict] <;> exact inferInstance
 
+theorem putStore_disk_stable (s : State) (t' : Tag) (d' : Digest) (delay : Nat) (ups : List Bool) (t : Tag) (d : Digest)
+    (h : lookup s.disk t = some d) : lookup (putStore s t' d' delay ups).1.disk t = some d := by
+  simp only [putStore]
+  split
+  · split <;> exact writeDisk_stable _ _ _ _ _ h
+  · split <;> exact writeDisk_stable _ _ _ _ _ h
+
 /-- **C32 (2a)** without eviction no operation changes the digest the disk holds for a tag (a second PUT
 with another digest is acknowledged but leaves the first digest). -/
 theorem disk_stable (s : State) (o : Op) (hne : NoEvict o) (t : Tag) (d : Digest) (h : lookup s.disk t = some d) :
@@ -593,10 +642,8 @@ theorem disk_stable (s : State) (o : Op) (hne : NoEvict o) (t : Tag) (d : Digest
   cases o with
   | put t' d' deps ups =>
     simp only [stepO]
-    cases hc : checkDeps deps <;> simp only <;> try exact h
-    split
-    · split <;> exact writeDisk_stable _ _ _ _ _ h
-    · split <;> exact writeDisk_stable _ _ _ _ _ h
+    cases hc : checkDeps deps <;> simp only <;> first | exact h | exact putStore_disk_stable s t' d' 0 ups t d h
+  | dupPut t' d' delay ups => simp only [stepO]; exact putStore_disk_stable s t' d' delay ups t d h
   | get t' up =>
     simp only [stepO]
     split
@@ -623,26 +670,31 @@ theorem disk_stable_hist (s : State) (ops : List Op) (hne : ∀ o ∈ ops, NoEvi
 /-- without eviction the backend only ever holds copies of the node's digest -/
 def BackendDisk (s : State) : Prop := ∀ t b, lookup s.backend t = some b → lookup s.disk t = some b
 
+theorem putStore_backendDisk (s : State) (t : Tag) (d : Digest) (delay : Nat) (ups : List Bool) (h : BackendDisk s) :
+    BackendDisk (putStore s t d delay ups).1 := by
+  simp only [putStore]
+  have hb1 : ∀ x v, lookup s.backend x = some v → lookup (writeDisk s.disk t d) x = some v :=
+    fun x v hx => writeDisk_stable _ _ _ _ _ (h x v hx)
+  split
+  · have e := syncExec_spec (writeDisk s.disk t d) t 3 ups s.backend
+    cases hr : syncExec (writeDisk s.disk t d) t 3 ups s.backend with
+    | mk ok b' =>
+      rw [hr] at e
+      have : ∀ x v, lookup b' x = some v → lookup (writeDisk s.disk t d) x = some v := by
+        intro x v hx
+        rcases e.source x v hx with h1 | ⟨rfl, h1⟩
+        · exact hb1 x v h1
+        · exact h1
+      cases ok <;> exact this
+  · split <;> exact hb1
+
 theorem step_backendDisk (s : State) (o : Op) (hne : NoEvict o) (h : BackendDisk s) : BackendDisk (step s o) := by
   unfold step
   cases o with
   | put t d deps ups =>
     simp only [stepO]
-    cases hc : checkDeps deps <;> simp only <;> try exact h
-    have hb1 : ∀ x v, lookup s.backend x = some v → lookup (writeDisk s.disk t d) x = some v :=
-      fun x v hx => writeDisk_stable _ _ _ _ _ (h x v hx)
-    split
-    · have e := syncExec_spec (writeDisk s.disk t d) t 3 ups s.backend
-      cases hr : syncExec (writeDisk s.disk t d) t 3 ups s.backend with
-      | mk ok b' =>
-        rw [hr] at e
-        have : ∀ x v, lookup b' x = some v → lookup (writeDisk s.disk t d) x = some v := by
-          intro x v hx
-          rcases e.source x v hx with h1 | ⟨rfl, h1⟩
-          · exact hb1 x v h1
-          · exact h1
-        cases ok <;> exact this
-    · split <;> exact hb1
+    cases hc : checkDeps deps <;> simp only <;> first | exact h | exact putStore_backendDisk s t d 0 ups h
+  | dupPut t d delay ups => simp only [stepO]; exact putStore_backendDisk s t d delay ups h
   | get t' up => simp only [stepO]; (repeat' split) <;> exact h
   | retry o => simp only [stepO]; split <;> exact h
   | exec t' up =>
@@ -722,10 +774,11 @@ theorem write_through_is_synchronous (cfg : Retry.Config) (ops : List Op) (t : T
     refine Sys.run_inv (sys cfg true) (fun s => s.writeThrough = true) rfl ?_ l
     intro s a hs
     have : (step s a).writeThrough = s.writeThrough := by
-      cases a <;> simp only [step, stepO] <;> (repeat' split) <;> rfl
+      cases a <;> simp only [step, stepO, putStore] <;> (repeat' split) <;> rfl
     exact this.trans hs
-  simp only [s', out, step, stepO, hwt ops, if_true] at h ⊢
+  simp only [s', out, step, stepO] at h ⊢
   cases hc : checkDeps deps <;> simp only [hc] at h ⊢ <;> try (exact absurd h (by simp))
+  simp only [putStore, hwt ops, if_true] at h ⊢
   have e := syncExec_spec (writeDisk ((sys cfg true).run ops).disk t d) t 3 ups ((sys cfg true).run ops).backend
   cases hr : syncExec (writeDisk ((sys cfg true).run ops).disk t d) t 3 ups ((sys cfg true).run ops).backend with
   | mk ok b' =>
@@ -870,6 +923,16 @@ theorem eventually_written_back (cfg : Retry.Config) (hc : Retry.WFCfg cfg) (ops
   have hi : Inv s := inv_always cfg false ops
   have e1 : ∀ (r : Retry.State) (o : Retry.Op), (Retry.step r o).cfg = r.cfg := by
     intro r o; cases o <;> simp only [Retry.step, Retry.stepO, Retry.enqueue] <;> (repeat' split) <;> rfl
+  have hps : ∀ (s : State) (t : Tag) (d : Digest) (delay : Nat) (ups : List Bool), (putStore s t d delay ups).1.r.cfg = s.r.cfg := by
+    intro s t d delay ups
+    simp only [putStore]
+    split
+    · split <;> rfl
+    · cases ha : Retry.stepO s.r (.addBegin t delay []) with
+      | mk r1 o1 =>
+        have hr1 : r1.cfg = s.r.cfg := by
+          have := e1 s.r (.addBegin t delay []); simp only [Retry.step, ha] at this; exact this
+        cases o1 <;> simp only <;> first | rfl | (rw [e1]; exact hr1)
   have hcfg : s.r.cfg = cfg := by
     refine Sys.run_inv (sys cfg false) (fun s => s.r.cfg = cfg) rfl ?_ ops
     intro s a h
@@ -877,14 +940,8 @@ theorem eventually_written_back (cfg : Retry.Config) (hc : Retry.WFCfg cfg) (ops
       cases a with
       | put t d deps ups =>
         simp only [step, stepO]
-        cases checkDeps deps <;> simp only <;> try rfl
-        split
-        · split <;> rfl
-        · cases ha : Retry.stepO s.r (.addBegin t 0 []) with
-          | mk r1 o1 =>
-            have hr1 : r1.cfg = s.r.cfg := by
-              have := e1 s.r (.addBegin t 0 []); simp only [Retry.step, ha] at this; exact this
-            cases o1 <;> simp only <;> first | rfl | (rw [e1]; exact hr1)
+        cases checkDeps deps <;> simp only <;> first | rfl | exact hps s t d 0 ups
+      | dupPut t d delay ups => simp only [step, stepO]; exact hps s t d delay ups
       | get t up => simp only [step, stepO]; (repeat' split) <;> rfl
       | retry o =>
         simp only [step, stepO]
@@ -965,6 +1022,14 @@ example : ((sys cfg1 false).run (asyncHist ++ [.exec 1 true])).backend = [(1, 10
 
 -- eviction: refused while the write-back is pending, allowed afterwards; the node then answers from
 -- the backend (the fallback branch of GET is live), and nothing when the backend is unreachable
+-- a delayed duplicate PUT: stored as a failed task, not picked up before its delay has passed, then written back
+def dupHist : List Op := [.dupPut 1 10 5 []]
+def dupPoll : List Op := [.retry .pollFetch, .retry .pollMark, .retry .pollEnq, .retry (.take .ret), .exec 1 true]
+example : ((sys cfg1 false).run dupHist).okPut = [1] ∧ ((sys cfg1 false).run dupHist).r.rows.map (·.status) = [.failed] := by decide
+example : ((sys cfg1 false).run (dupHist ++ .retry (.advance 4) :: dupPoll)).backend = [] := by decide
+example : ((sys cfg1 false).run (dupHist ++ .retry (.advance 5) :: dupPoll)).backend = [(1, 10)] := by decide
+example : replicationTasks (out (init cfg1 false) (.put 1 10 [.ok, .ok] [])) 1 10 [7, 8] [0, 1] = [(1, 10, [7, 8], 0), (1, 10, [7, 8], 1)] ∧
+    replicationTasks (out (init cfg1 false) (.put 1 10 [.ok, .notFound] [])) 1 10 [7, 8] [0, 1] = [] := by decide
 def evictHist : List Op := [.put 1 10 [.ok] [], .evict 1, .retry (.take .inc), .exec 1 true, .evict 1]
 example : out ((sys cfg1 false).run (evictHist.take 1)) (.evict 1) = .refused := by decide
 example : ((sys cfg1 false).run evictHist).disk = [] ∧ ((sys cfg1 false).run evictHist).backend = [(1, 10)] := by decide
